@@ -552,9 +552,10 @@ Fixpoint out_nodes (st : state) (ns : list cnode) : ores (list Cursor.node) :=
 Definition symbol_values (m : Symbols.mgr) (st : state) : list (text * value) :=
   combine (map Symbols.sd_name (Symbols.m_decls m)) (s_sym st).
 
+(* r_nodes: the resolved nodes as build_output sees them (sizes, encodings, label values of the final state) *)
 Record result := mkResult {
   r_bits : list bool; r_items : list Output.item; r_banks : list Cursor.bank;
-  r_syms : list (text * value); r_iters : nat }.
+  r_syms : list (text * value); r_iters : nat; r_nodes : list Cursor.node }.
 
 (* everything up to (not including) resolve_iteratively *)
 Definition setup (indexed : bool) (defs : list ruledef) (ps : list pnode)
@@ -590,7 +591,7 @@ Definition assemble2 (indexed : bool) (defs : list ruledef) (ps : list pnode) (b
       | Ok vs =>
         match Output.output_stage (Z.to_N max_bits) banks vs with
         | Err => Err | Panic => Panic
-        | Ok (bits, items) => Ok (mkResult bits items banks (symbol_values m st) n)
+        | Ok (bits, items) => Ok (mkResult bits items banks (symbol_values m st) n vs)
         end
       end
     end
